@@ -22,7 +22,7 @@ YOUR TASK: make ONE small, realistic source change (the kind of slip a maintaine
 
 DELIVERABLES (all inside {wt}):
  1. {wt}/seed_patch.diff  - produced with `cd {wt} && git diff > seed_patch.diff` (only library files; do not include seed_* files in the diff).
- 2. {wt}/seed_demo.py     - a small self-contained demonstration program that uses only the public API of the library (import with `sys.path.insert(0, '{wt}')` at the top), exits with status 1 and prints what went wrong when run against the changed code, and exits 0 against the unchanged code (verify both: `git stash` / `git stash pop` or `git apply -R`). It should write any files it needs into a tempfile directory.
+ 2. {wt}/seed_demo.py     - a small self-contained demonstration program that uses only the public API of the library (import with `sys.path.insert(0, '{wt}')` at the top), exits with status 1 and prints what went wrong when run against the changed code, and exits 0 against the unchanged code (verify both with `git diff > /tmp/x.diff; git apply -R /tmp/x.diff; ...; git apply /tmp/x.diff` - do NOT use `git stash`: the worktrees of several engineers share one stash). It should write any files it needs into a tempfile directory.
  3. {wt}/seed_meta.txt    - 5-10 lines: which file/function you changed, why it breaks the property, what exactly is needed for the defect to manifest, and the commands you ran with their results (pinned suite before/after, demo before/after).
 
 Leave the worktree with your change APPLIED (working tree dirty, nothing committed). Use /venv/bin/python (Python 3.12; the library's dependencies are installed there). There is no network. Be concrete and verify everything by actually running it; report in your final answer the content of seed_meta.txt.""")
